@@ -167,3 +167,26 @@ Proof.
   - assert (He : exists z, e = Some z) by (destruct e; [eexists; reflexivity|cbn in Hr; discriminate]). destruct He as [z ->].
     cbn [rbind rmap step_out]. rewrite Hr, Hst. reflexivity.
 Qed.
+
+(* ---- the accessors: DataType, RawPacket, MessageIdentifier ---- *)
+Theorem data_type_agrees c :
+  g_Client_DataType (abs c) = match data_type c with Ok z => Val (z, abs c) | _ => Pan end.
+Proof.
+  unfold g_Client_DataType, data_type, abs. rewrite packet_identifier_agrees.
+  destruct (cpkt c) as [p|]; cbn [optb length].
+  - destruct (2 <=? length p)%nat; cbn [rbind]; [|reflexivity]. unfold pkt_dtype.
+    destruct (f_DataIdentifier_SetUint16 0 0 0 (Z.of_N (be16 (nthb p 0) (nthb p 1)))) as [[t cs] pr]. reflexivity.
+  - reflexivity.
+Qed.
+
+Theorem raw_packet_agrees c : g_Client_RawPacket (abs c) = Val (optb (raw_packet c), abs c).
+Proof. reflexivity. Qed.
+
+Theorem message_identifier_agrees c : (forall m, cmsg c = Some m -> wf_bytes m) ->
+  g_Client_MessageIdentifier (abs c) = match message_identifier c with Ok i => Val (Z.of_N i, abs c) | _ => Pan end.
+Proof.
+  intros Hw. unfold g_Client_MessageIdentifier, message_identifier, abs.
+  destruct (cmsg c) as [m|] eqn:Em; cbn [optb].
+  - rewrite (identifier_agrees m (Hw m eq_refl)). destruct (identifier m); reflexivity.
+  - reflexivity.
+Qed.
